@@ -63,6 +63,8 @@ def run(ck, facts):
     ck.rule("R1", "no order-dependent or ambient-nondeterministic effect: every iteration over a hash container and every ambient read (time, env, pid, read_dir, fs reads, pointer formatting) in core+tool is in the triaged allow-list spec/effects.json")
     ck.rule("R2", "containers whose iteration order reaches the output are ordered (BTreeMap/BTreeSet/Vec); lookups by AST node identity, not by name")
     ck.rule("R3", "code outside #[diplomat::bridge] modules is inert: every item-recording arm of Module::from_syn is guarded by analyze_types, which is true only for the full path diplomat::bridge (or the forced root); config scan reads only top-level diplomat::config attributes")
+    ck.rule("R5", "per-item scratch state of a generator is reset in every item loop that uses the generator: a buffer one loop of a backend's run() clears per item is cleared "
+                  "per item in its sibling loops too (data of an unrelated type cannot leak into another item's file)")
     ck.rule("R4", "one file per type: file names passed to add_file derive from the type's id/name only; duplicate file names are rejected")
     ck.not_decided += ["std's own determinism; byte-identity of whole output directories (the causes are decided, not the bytes)"]
 
@@ -191,3 +193,36 @@ def run(ck, facts):
         f = tool.fn("diplomat_tool::%s::run" % b)
         sites = [x for x in C.calls_in(C.fn_body(f)) if x.get("k") == "mcall" and x.get("m") == "add_file"]
         ck.expect(len(sites) >= min_sites, "R4", "%s::run/add_file-sites" % b, "%d" % len(sites), "only %d add_file sites in %s::run" % (len(sites), b), C.loc(f))
+
+    # ---------------- R5 per-item scratch is reset in every sibling item loop
+    n5 = 0
+    for f in tool.fn_list:
+        if f.get("dk") == "Closure" or "hir" not in f:
+            continue
+        if not re.search(r"^diplomat_tool::(c|cpp|js|dart|kotlin|nanobind|demo_gen)(::\w+)*::(run|gen|run_gen)$", C.norm_path(f["path"])):
+            continue
+        loops = []
+        for lp in C.enclosing_loops(C.fn_body(f)):
+            if lp.get("k") != "for":
+                continue
+            its = [C.callee(x) or "" for x in C.calls_in(lp["iter"])]
+            if any(c.endswith("all_types") or c.endswith("all_traits") for c in its):
+                loops.append(lp)
+        RESET = ("mcall:clear", "mcall:drain", "mcall:truncate", "assign")
+        cleared = {}
+        for i, lp in enumerate(loops):
+            for r, path, kind, node in C.mutations(lp["body"]):
+                if r is not None and kind in RESET and path:
+                    cleared.setdefault((r.get("n"), tuple(path)), set()).add(i)
+        for (root, path), where_ in sorted(cleared.items()):
+            for i, lp in enumerate(loops):
+                uses_root = any(r is not None and r.get("n") == root and kind.startswith("mcall:") and kind not in RESET for r, _, kind, _ in C.mutations(lp["body"]))
+                if not uses_root:
+                    continue
+                n5 += 1
+                what = "traits" if any((C.callee(x) or "").endswith("all_traits") for x in C.calls_in(lp["iter"])) else "types"
+                ck.expect(i in where_, "R5", "%s/loop-over-%s/%s.%s-reset" % (C.norm_path(f["path"]).replace("diplomat_tool::", ""), what, root, ".".join(path)),
+                          "reset per item", "`%s.%s` is per-item scratch (reset per item in a sibling loop of the same function) but the loop over %s generates with `%s` without resetting it: "
+                          "whatever the previous item left there is printed into this item's file" % (root, ".".join(path), what, root), C.loc(f, lp.get("ln")))
+    if n5 < 2:
+        ck.bad("R5", "floor", "only %d (loop, scratch buffer) pairs found (2 counted: kotlin::run types/traits x callback_params)" % n5)
